@@ -16,8 +16,18 @@ Pure recursion on token lists, no machine:
 namespace CL.Syn
 
 theorem isOpen_not_isClose {t : Tok} (h : isOpen t = true) : isClose t = false := by
-  simp only [isOpen, isClose, beq_iff_eq] at h ⊢
-  simp [h]
+  simp only [isOpen, isClose, Tok.isSymbol, Bool.and_eq_true, beq_iff_eq] at h ⊢
+  simp [h.2]
+
+/-- a name token is not a punctuation token, in particular not `)` -/
+theorem isName_not_isClose {t : Tok} (h : t.isName = true) : isClose t = false := by
+  simp only [Tok.isName, beq_iff_eq] at h
+  simp [isClose, Tok.isSymbol, h]
+
+/-- a name token is not a punctuation token, in particular not `(` -/
+theorem isName_not_isOpen {t : Tok} (h : t.isName = true) : isOpen t = false := by
+  simp only [Tok.isName, beq_iff_eq] at h
+  simp [isOpen, Tok.isSymbol, h]
 
 theorem groupsLen_nil (d : Nat) : groupsLen [] d = 0 := rfl
 
@@ -304,14 +314,22 @@ theorem SynHeader.finish_unique {toks : List Tok} {p f f' : Nat} (h : SynHeader 
     (h' : SynHeader toks p f') : f = f' := by
   rw [h.2.2, h'.2.2]
 
-/-- Let `[p, f)` be a syntactic header that is followed by a token (`f < toks.length`) and whose
-name token does not have the text `)`.  A syntactic header that starts EARLIER, at `q < p`, and is
-still running at `p` cannot finish inside `(p, f]`: from `p + 1` on it is at least one level
-deeper than the header at `p`, so it reads at least the token `toks[f]`. -/
+/-- the name token of a syntactic header is not the punctuation token `)` (it is a name token) -/
+theorem SynHeader.name_not_close {toks : List Tok} {p f : Nat} (h : SynHeader toks p f) :
+    ∀ t, toks[p]? = some t → isClose t = false := by
+  intro t ht
+  obtain ⟨n, hn, hnm⟩ := h.1
+  rw [ht] at hn; cases hn
+  exact isName_not_isClose hnm
+
+/-- Let `[p, f)` be a syntactic header that is followed by a token (`f < toks.length`).  A
+syntactic header that starts EARLIER, at `q < p`, and is still running at `p` cannot finish inside
+`(p, f]`: the name token at `p` is not a punctuation token, so from `p + 1` on the earlier header
+is at least one level deeper than the header at `p`, and it reads at least the token `toks[f]`. -/
 theorem SynHeader.no_earlier_finish_inside {toks : List Tok} {p f q f' : Nat}
-    (h : SynHeader toks p f) (hf : f < toks.length)
-    (hname : ∀ t, toks[p]? = some t → isClose t = false) (hq : q < p)
+    (h : SynHeader toks p f) (hf : f < toks.length) (hq : q < p)
     (h' : SynHeader toks q f') : ¬ (p < f' ∧ f' ≤ f) := by
+  have hname := h.name_not_close
   rintro ⟨h1, h2⟩
   have hf' := h'.2.2
   have hfe := h.2.2
@@ -334,8 +352,8 @@ theorem groupsLen_pos (t : Tok) (ts : List Tok) {d : Nat} (hd : 1 ≤ d) :
   · omega
   · omega
 
-/-- A syntactic header that starts at `q` and reads the token at index `i > q`, whose text is
-not `)`, goes on after it inside at least one open parenthesis; in particular it also reads the
+/-- A syntactic header that starts at `q` and reads the token at index `i > q`, which is not the
+punctuation token `)`, goes on after it inside at least one open parenthesis; in particular it also reads the
 token at `i + 1` if there is one. -/
 theorem SynHeader.enclosing {toks : List Tok} {q f' i : Nat} (h' : SynHeader toks q f')
     (hq : q < i) (hi : i < f') (hname : ∀ t, toks[i]? = some t → isClose t = false) :
